@@ -14,9 +14,34 @@ from ..lean import run_driver
 
 ID = 'C06'
 DRIVERS = ('driver_tensor',)
-THEOREMS = [
-]
+THEOREMS = ['PbBss.C06.' + t for t in [
+    # generic family: primitives addressed from the end of the shape commute with fixing the leading indices
+    'map_slices', 'zipWith_slices', 'reduceKeep_slices', 'reduceDrop_slices', 'cumprodFromEnd_slices',
+    'cumsumFromEnd_slices', 'expandDims_slices', 'swapaxes_slices', 'reshape_pair_slices',
+    # transcriptions of pb_bss functions
+    'posterior_slices', 'mixtureWeight_slices', 'gaussianFit_slices', 'gaussianLogPdf_slices',
+    'diagonalGaussianLogPdf_slices', 'sphericalGaussianLogPdf_slices', 'diagonalPostInit_slices',
+    'diagonalPostInit_standalone', 'sphericalPostInit_slices', 'sphericalPostInit_standalone', 'fullPostInit_slices',
+    'fullPostInit_standalone',
+    'vmfFit_slices', 'vmfLogPdf_slices', 'scatter_slices', 'watsonLogPdf_slices', 'binghamLogPdf_slices',
+    'cacgNormalize_slices', 'cacgStart_slices', 'cacgFitCovariance_slices', 'cacgEigenvalueNorm_slices',
+    'cacgLogPdf_slices',
+    # singleton leading axes
+    'broadcastLead_slices', 'singleton_init_weights',
+    # counter-witnesses
+    'cumprod_axis0_not_slicewise', 'postInit_without_reshape_back_wrong_shape',
+]]
 ASSUMPTIONS = [
+    'theorems are about the reversed-index tensor-layer transcriptions (lean/PbBss/Model/Tensor.lean) of: log_pdf_to_affiliation, '
+    'estimate_mixture_weight(weight_constant_axis=(-1,)), GaussianTrainer._fit, the three Gaussian log_pdf and __post_init__; they '
+    'are tied to /repo by the element-wise correspondence run on full stacked arrays (NumPy semantics of einsum/broadcasting/reshape '
+    'are modelled, not verified)',
+    'complex Gaussian, vMF, complex Watson, cACG, complex Bingham (trainers and log_pdf) and the EM loops of the five mixture '
+    'trainers have no tensor-layer transcription: for them the claim rests on the stacked-vs-slice search on the real code',
+    'external per-matrix routines (sklearn precision Cholesky, eigh, hyp1f1/ive, least_squares) are assumed to treat the entries of '
+    'a stack independently; this is what the search observes, not a theorem',
+    'search tolerances: closed-form fields 1e-9 relative, after 1..3 EM iterations 1e-7, Bingham eigenvalues (least_squares) 1e-5; '
+    'eigenvectors compared as projectors / through U diag(l) U^H; observed deviations on the unchanged tree are below 1e-13',
 ]
 
 from pb_bss.distribution import gaussian as G  # noqa: E402
@@ -153,6 +178,32 @@ def _compare_fields(kind, stacked, alone, idx, loosen=1.0):
     return None
 
 
+def _cond_factor(kind, m):
+    """rounding differences (1e-16) are amplified by the conditioning of the fitted covariance before they reach the
+    next EM iterate: tolerance factor max(1, cond * 1e-6) (1 for well conditioned slices)"""
+    try:
+        if kind in ('cacg',):
+            ev = np.asarray(m.covariance_eigenvalues, dtype=float)
+            c = float(np.max(ev.max(-1) / np.maximum(ev.min(-1), 1e-300)))
+        elif kind == 'gauss-full':
+            c = float(np.max(np.linalg.cond(np.asarray(m.covariance))))
+        elif kind == 'cgauss':
+            c = float(np.max(np.linalg.cond(np.asarray(m.covariance))))
+        elif kind == 'vmf':
+            c = float(np.max(np.asarray(m.concentration))) * 1e3
+        elif kind in ('watson',):
+            c = float(np.max(np.asarray(m.concentration))) * 1e3
+        elif kind == 'bingham':
+            c = float(np.max(-np.asarray(m.covariance_eigenvalues))) * 1e3
+        else:
+            c = 1.0
+    except Exception:  # noqa
+        c = 1.0
+    if not np.isfinite(c):
+        c = 1e16
+    return max(1.0, c * 1e-6)
+
+
 def _take(x, idx):
     return None if x is None else x[idx]
 
@@ -175,22 +226,28 @@ def trainer_slices(kind, y, saliency):
         return Fail(f'{kind}:stacked-fit-raises-{type(e).__name__}',
                     f'{kind} trainer: every slice fits alone, the stack of leading shape {lead} raises {type(e).__name__}: {e}')
     for idx in np.ndindex(*lead):
-        bad = _compare_fields(kind, stacked, alone[idx], idx)
+        factor = min(_cond_factor(kind, alone[idx]) * 100.0, 1e5) if kind == 'cacg' else 1.0   # 3 fixed-point iterations
+        bad = _compare_fields(kind, stacked, alone[idx], idx, loosen=factor)
         if bad:
             return Fail(f'{kind}:fit:{bad[0]}', f'{kind} trainer, leading shape {lead}: field {bad[0]}: {bad[1]}')
     # the fitted stack evaluates each slice like the stand-alone model does
+    want = {}
+    for idx in np.ndindex(*lead):
+        try:
+            want[idx] = alone[idx].log_pdf(y[idx])
+        except (AssertionError, np.linalg.LinAlgError, FloatingPointError) as e:
+            return Skip(f'log_pdf of the slice alone raises {type(e).__name__} ({kind})')
     try:
         lp = stacked.log_pdf(y)
     except Exception as e:  # noqa
         return Fail(f'{kind}:stacked-log_pdf-raises-{type(e).__name__}',
                     f'{kind}: log_pdf of the fitted stack (leading shape {lead}) raises {type(e).__name__}: {e}')
     for idx in np.ndindex(*lead):
-        want = alone[idx].log_pdf(y[idx])
-        ok, err = tu.close(np.asarray(lp)[idx] if np.ndim(lp) >= len(lead) else lp, want,
+        ok, err = tu.close(np.asarray(lp)[idx] if np.ndim(lp) >= len(lead) else lp, want[idx],
                            RTOL_SOLVER if kind == 'bingham' else 1e-6)
         if not ok:
             return Fail(f'{kind}:fit:log_pdf', f'{kind}: log_pdf of the fitted stack at {idx} differs from the stand-alone '
-                        f'model ({err:.3g} relative; shapes {np.shape(lp)} vs {np.shape(want)})')
+                        f'model ({err:.3g} relative; shapes {np.shape(lp)} vs {np.shape(want[idx])})')
 
 
 def _slice_params(p, idx):
@@ -288,6 +345,30 @@ def _mix_parts(kind, m):
     raise ValueError(kind)
 
 
+def _rebuild(kind, stacked, idx, wca):
+    """a stand-alone mixture model object made of the stacked model's fields at leading index `idx`"""
+    w, ck, comp = _mix_parts(kind, stacked)
+    w = np.asarray(w)
+    if wca != 'uniform':
+        w = w[tuple(i if w.shape[j] != 1 else 0 for j, i in enumerate(idx))]
+    if ck.startswith('gauss-'):
+        cm = _make_dist(ck, {'mean': comp.mean[idx], 'covariance': comp.covariance[idx]})
+        return GMM_.GMM(weight=w, gaussian=cm)
+    if ck == 'cacg':
+        cm = _make_dist(ck, {'covariance_eigenvectors': comp.covariance_eigenvectors[idx],
+                             'covariance_eigenvalues': comp.covariance_eigenvalues[idx]})
+        return CACGMM_.CACGMM(weight=w, cacg=cm)
+    if ck == 'watson':
+        return CWMM_.CWMM(weight=w, complex_watson=_make_dist(ck, {'mode': comp.mode[idx], 'concentration': comp.concentration[idx]}))
+    if ck == 'bingham':
+        cm = _make_dist(ck, {'covariance_eigenvectors': comp.covariance_eigenvectors[idx],
+                             'covariance_eigenvalues': comp.covariance_eigenvalues[idx]})
+        return CBMM_.CBMM(weight=w, complex_bingham=cm)
+    if ck == 'vmf':
+        return VMFMM_.VMFMM(vmf=_make_dist(ck, {'mean': comp.mean[idx], 'concentration': comp.concentration[idx]}), weight=w)
+    raise ValueError(kind)
+
+
 def _compare_mixtures(kind, stacked, alone, idx, y_stack_pred, y_alone, wca, tol_scale):
     ws, ck, cs = _mix_parts(kind, stacked)
     wa, _, ca = _mix_parts(kind, alone)
@@ -300,14 +381,14 @@ def _compare_mixtures(kind, stacked, alone, idx, y_stack_pred, y_alone, wca, tol
         if ws.ndim != wa.ndim + len(idx):
             return 'weight', f'stacked weight has shape {ws.shape}, stand-alone {wa.shape}'
         bidx = tuple(i if ws.shape[j] != 1 else 0 for j, i in enumerate(idx))
-        ok, err = tu.close(ws[bidx], wa, RTOL_EM * tol_scale)
+        ok, err = tu.close(ws[bidx], wa, min(RTOL_EM * tol_scale, 1e-2))
         if not ok:
             return 'weight', f'mixture weight at {idx} differs from the stand-alone fit ({err:.3g} relative; {ws[bidx].shape} vs {wa.shape})'
-    bad = _compare_fields(ck, cs, ca, idx, loosen=100.0 * tol_scale)
+    bad = _compare_fields(ck, cs, ca, idx, loosen=min(100.0 * tol_scale, 1e5))
     if bad:
         return 'component-' + bad[0], bad[1]
     pa = alone.predict(y_alone)
-    ok, err = tu.close(np.asarray(y_stack_pred)[idx], pa, 0.0, atol=(RTOL_SOLVER if kind == 'cbmm' else 1e-6) * tol_scale)
+    ok, err = tu.close(np.asarray(y_stack_pred)[idx], pa, 0.0, atol=min((RTOL_SOLVER if kind == 'cbmm' else 1e-6) * tol_scale, 1e-2))
     if not ok:
         return 'predict', f'posterior of the stacked model at {idx} differs from the stand-alone model ({err:.3g}; ' \
                           f'{np.asarray(y_stack_pred)[idx].shape} vs {np.shape(pa)})'
@@ -316,7 +397,12 @@ def _compare_mixtures(kind, stacked, alone, idx, y_stack_pred, y_alone, wca, tol
 
 @oracle
 def mixture_slices(kind, y, initialization, saliency, iterations, wca):
-    """<Mixture>Trainer().fit(stack, per-slice weights) == fit of every slice alone (weights, components, posteriors)"""
+    """<Mixture>Trainer().fit(stack, per-slice weights) == fit of every slice alone (weights, components, posteriors).
+
+    One iteration (one M-step + E-step) is compared tightly.  For several iterations the E-step of the final stacked
+    model is compared tightly against a stand-alone model made of its own fields, and the end-to-end result against the
+    stand-alone fit with a tolerance that grows with the conditioning of the fitted covariances (rounding differences of
+    1e-16 are amplified by 1/eigenvalue-floor before they reach the next iterate; they are not cross-talk)."""
     lead = y.shape[:-2]
     D = y.shape[-1]
     trainer = _mix_trainer(kind, D)
@@ -324,6 +410,7 @@ def mixture_slices(kind, y, initialization, saliency, iterations, wca):
     for idx in np.ndindex(*lead):
         try:
             alone[idx] = _mix_fit(kind, trainer, y[idx].copy(), initialization[idx].copy(), _take(saliency, idx), iterations, wca)
+            alone[idx].predict(y[idx])
         except (AssertionError, np.linalg.LinAlgError, ValueError, FloatingPointError) as e:
             return Skip(f'slice alone raises {type(e).__name__} ({kind})')
     try:
@@ -332,11 +419,22 @@ def mixture_slices(kind, y, initialization, saliency, iterations, wca):
     except Exception as e:  # noqa
         return Fail(f'{kind}:stacked-fit-raises-{type(e).__name__}',
                     f'{kind} trainer: every slice fits alone, the stack of leading shape {lead} raises {type(e).__name__}: {e}')
+    ck = _mix_parts(kind, stacked)[1]
     for idx in np.ndindex(*lead):
-        bad = _compare_mixtures(kind, stacked, alone[idx], idx, pred, y[idx], wca, tol_scale=float(iterations))
+        factor = 1.0 if iterations == 1 else _cond_factor(ck, _mix_parts(kind, alone[idx])[2]) * 10.0 ** (iterations - 1)
+        bad = _compare_mixtures(kind, stacked, alone[idx], idx, pred, y[idx], wca, tol_scale=factor)
         if bad:
             return Fail(f'{kind}:{bad[0]}', f'{kind} trainer ({iterations} iterations, weight_constant_axis={_wca(wca)}), '
-                        f'leading shape {lead}: {bad[1]}')
+                        f'leading shape {lead}: {bad[1]} [tolerance factor {factor:.3g}]')
+        if iterations > 1:
+            try:
+                want = _rebuild(kind, stacked, idx, wca).predict(y[idx])
+            except (AssertionError, np.linalg.LinAlgError, ValueError, FloatingPointError):
+                continue
+            ok, err = tu.close(np.asarray(pred)[idx], want, 0.0, atol=1e-8)
+            if not ok:
+                return Fail(f'{kind}:e-step', f'{kind} ({iterations} iterations), leading shape {lead}: posterior of the stacked model '
+                            f'at {idx} differs by {err:.3g} from the posterior of a stand-alone model with the same parameters')
 
 
 @oracle
@@ -394,9 +492,26 @@ class _SliceView:
 
 
 # ----------------------------------------------------------------------------- generators
-def _gen_y(rng, kind, lead, N, D):
+DEGENERATE = ['none', 'none', 'none', 'zero-frame', 'dup-frames', 'huge-slice', 'tiny-slice', 'equal-slices']
+
+
+def _gen_y(rng, kind, lead, N, D, degenerate='none'):
+    """observations (lead..., N, D), different content per slice; `degenerate` plants one special slice / frame so that
+    cross-talk between a degenerate slice and its neighbours would show"""
     cx = kind in COMPLEX_KINDS or kind in COMPLEX_MIX
-    return tu.slice_contents(rng, lead, (N, D), complex_=cx)
+    y = tu.slice_contents(rng, lead, (N, D), complex_=cx)
+    idx = tuple(int(rng.integers(0, s)) for s in lead)
+    if degenerate == 'zero-frame':
+        y[idx + (int(rng.integers(0, N)),)] = 0
+    elif degenerate == 'dup-frames':
+        y[idx] = y[idx + (0,)]
+    elif degenerate == 'huge-slice':
+        y[idx] *= 1e150
+    elif degenerate == 'tiny-slice':
+        y[idx] *= 1e-150
+    elif degenerate == 'equal-slices':
+        y[...] = y[idx]
+    return y
 
 
 def _gen_saliency(rng, lead, N):
@@ -496,7 +611,7 @@ def search(ctx):
     quick = ctx.tier == 'quick'
     cap = 30 if quick else 125
     # (1) distribution trainers and log_pdf
-    n = ctx.n(12, 120)
+    n = ctx.n(30, 900)
     for i in range(n):
         for kind in DIST_KINDS:
             if ctx.out_of_time(reserve=40):
@@ -504,9 +619,11 @@ def search(ctx):
             lead = tu.lead_shape(rng, max_total=cap)
             D = _dims(rng, kind)
             N = int(rng.integers(D + 2, D + 9))
-            y = _gen_y(rng, kind, lead, N, D)
+            deg = str(rng.choice(DEGENERATE))
+            y = _gen_y(rng, kind, lead, N, D, deg)
             sal = None if (kind == 'cacg' or rng.random() < 0.4) else _gen_saliency(rng, lead, N)
             ctx.count(f'lead-ndim-{len(lead)}')
+            ctx.count(f'degenerate-{deg}')
             ctx.count('lead-with-singleton' if 1 in lead else 'lead-without-singleton')
             ok = ctx.run(trainer_slices, kind=kind, y=y, saliency=sal)
             if i == 0:
@@ -526,7 +643,7 @@ def search(ctx):
             ctx.count(f'log_pdf-{layout}')
             ctx.run(log_pdf_slices, kind=kind, params=params, y=yy, layout=layout)
     # (2) mixture trainers with per-slice weights
-    n = ctx.n(6, 60)
+    n = ctx.n(14, 400)
     for i in range(n):
         for kind in MIX_KINDS:
             if ctx.out_of_time(reserve=25):
@@ -535,7 +652,9 @@ def search(ctx):
             D = _dims(rng, kind)
             K = int(rng.integers(2, 4))
             N = int(rng.integers(K * (D + 2), K * (D + 2) + 8))
-            y = _gen_y(rng, kind, lead, N, D)
+            deg = str(rng.choice(DEGENERATE))
+            y = _gen_y(rng, kind, lead, N, D, deg)
+            ctx.count(f'mixture-degenerate-{deg}')
             init = _gen_init(rng, lead, K, N)
             sal = None if rng.random() < 0.5 else _gen_saliency(rng, lead, N)
             iterations = int(rng.integers(1, 4))
@@ -547,7 +666,7 @@ def search(ctx):
                 ctx.sample({'oracle': 'mixture_slices', 'kind': kind, 'lead': list(lead), 'K': K, 'N': N, 'D': D,
                             'iterations': iterations, 'weight_constant_axis': wca, 'held': ok})
     # (3) singleton leading axes of the initial affiliation
-    n = ctx.n(4, 40)
+    n = ctx.n(8, 240)
     for i in range(n):
         for kind in MIX_KINDS:
             if ctx.out_of_time(reserve=5):
@@ -577,11 +696,11 @@ def _cmp_tensor(ctx, op, line_out, want, detail, data=None, rtol=1e-9, multi=Non
     """compare the driver's answer (one tensor, or several separated by '|') with NumPy's"""
     wants = want if isinstance(want, (list, tuple)) else [want]
     try:
-        gots = tu.parse_tensors(line_out, [False] * len(wants))
+        gots = tu.parse_tensors(line_out, [np.iscomplexobj(w) for w in wants])
     except Exception as e:  # noqa
         return ctx.corr(op, False, f'{detail}: unparsable driver answer {line_out[:80]!r} ({e})', data)
     for i, (g, w) in enumerate(zip(gots, wants)):
-        w = np.asarray(w, dtype=np.float64)
+        w = np.asarray(w, dtype=np.complex128 if np.iscomplexobj(w) else np.float64)
         if g.shape != w.shape:
             return ctx.corr(op, False, f'{detail}: output {i} has shape {g.shape} in the model, {w.shape} in NumPy', data)
         ok, err = tu.close(g, w, rtol)
@@ -647,6 +766,133 @@ def _prim_cases(rng, n):
     return out
 
 
+class _guarded:
+    """a crash of the real code inside one correspondence case is recorded as a disagreement of that case only"""
+
+    def __init__(self, ctx, op):
+        self.ctx, self.op = ctx, op
+
+    def __enter__(self):
+        return self
+
+    def __exit__(self, et, ev, tb):
+        if et is not None and issubclass(et, Exception):
+            import traceback
+            self.ctx.corr(self.op, False, 'the real code raised while preparing the case: ' +
+                          ''.join(traceback.format_exception(et, ev, tb, limit=4))[-600:])
+            return True
+        return False
+
+
+class _Capture:
+    """observe the argument an internal call receives (the externals are wrapped, not replaced)"""
+
+    def __init__(self, owner, name, pick=lambda a, k: a[0]):
+        self.owner, self.name, self.pick = owner, name, pick
+        self.seen = []
+
+    def __enter__(self):
+        self.raw = self.owner.__dict__[self.name]          # the descriptor itself (classmethod / function)
+        self.orig = getattr(self.owner, self.name)
+        orig, seen, pick = self.orig, self.seen, self.pick
+
+        def wrapper(*a, **k):
+            seen.append(pick(a, k))
+            return orig(*a, **k)
+        setattr(self.owner, self.name, wrapper)
+        return self
+
+    def __exit__(self, *exc):
+        setattr(self.owner, self.name, self.raw)
+
+
+TINY = float(np.finfo(np.float64).tiny)
+
+
+def _unit(y):
+    return y / np.linalg.norm(y, axis=-1, keepdims=True)
+
+
+
+def _corr_directional(ctx, rng, add, cap):
+    """vMF, scatter matrices (complex Gaussian / Watson / Bingham), Watson / Bingham / cACG log_pdf, cACG trainer pieces"""
+    T = tu.ttok
+
+    def TC(x):
+        return tu.ttok(x, complex_=True)
+    for i in range(ctx.n(25, 300)):
+        with _guarded(ctx, 'directional models'):
+            lead = tu.lead_shape(rng, max_total=cap)
+            D, N = int(rng.integers(2, 4)), int(rng.integers(3, 7))
+            layout = str(rng.choice(['plain', 'plain-nosal', 'class-axis']))
+            K = int(rng.integers(1, 4))
+            # --- vMF
+            if layout == 'class-axis':
+                y = _unit(tu.slice_contents(rng, lead + (1,), (N, D)))
+                sal = _gen_init(rng, lead, K, max(N, K))[..., :N] * _gen_saliency(rng, lead, N)[..., None, :]
+            else:
+                y = _unit(tu.slice_contents(rng, lead, (N, D)))
+                sal = None if layout == 'plain-nosal' else _gen_saliency(rng, lead, N)
+            m = VMF_.VonMisesFisherTrainer()._fit(y, saliency=sal, min_concentration=1e-10, max_concentration=500)
+            add('VonMisesFisherTrainer._fit', f'vmffit {int(sal is not None)} {tu.fbits([TINY, 1e-10, 500.0])} {T(y)}' +
+                (f' {T(sal)}' if sal is not None else ''), [m.mean, m.concentration], f'{layout}, y {y.shape}', {'y': y}, rtol=1e-8)
+            pl = lead if layout != 'class-axis' else lead + (K,)
+            p = _gen_params(rng, 'vmf', pl, D)
+            m = _make_dist('vmf', p)
+            yy = tu.slice_contents(rng, lead + ((1,) if layout == 'class-axis' else ()), (N, D))
+            add('VonMisesFisher.log_pdf', f'vmflogpdf {tu.fbits([TINY])} {T(m.mean)} {T(m.concentration)} {T(m.log_norm())} {T(yy)}',
+                m.log_pdf(yy), f'{layout}, y {yy.shape}', {'y': yy, **p}, rtol=1e-8)
+            # --- scatter matrices
+            if layout == 'class-axis':
+                yc = tu.slice_contents(rng, lead + (1,), (N, D), complex_=True)
+            else:
+                yc = tu.slice_contents(rng, lead, (N, D), complex_=True)
+            mg = CG_.ComplexCircularSymmetricGaussianTrainer()._fit(yc, saliency=sal, covariance_type='full')
+            add('ComplexCircularSymmetricGaussianTrainer._fit', f'scatter 1 {int(sal is not None)} {TC(yc)}' +
+                (f' {T(sal)}' if sal is not None else ''), mg.covariance, f'{layout}, y {yc.shape}', {'y': yc}, rtol=1e-8)
+            yu = _unit(yc)
+            with _Capture(CW_, 'get_pca') as capw:
+                CW_.ComplexWatsonTrainer(dimension=D)._fit(yu, saliency=sal)
+            add('ComplexWatsonTrainer._fit[covariance]', f'scatter 0 {int(sal is not None)} {TC(yu)}' +
+                (f' {T(sal)}' if sal is not None else ''), capw.seen[0], f'{layout}, y {yu.shape} (argument of get_pca)', {'y': yu},
+                rtol=1e-8)
+            # --- Watson / Bingham / cACG log_pdf
+            p = _gen_params(rng, 'watson', pl, D)
+            m = _make_dist('watson', p)
+            add('ComplexWatson.log_pdf', f'watsonlogpdf {TC(m.mode)} {T(m.concentration)} {T(m.log_norm())} {TC(yu)}',
+                m.log_pdf(yu), f'{layout}, y {yu.shape}', {'y': yu}, rtol=1e-8)
+            p = _gen_params(rng, 'bingham', pl, D)
+            m = _make_dist('bingham', p)
+            add('ComplexBingham.log_pdf', f'binghamlogpdf {TC(m.covariance_eigenvectors)} {T(m.covariance_eigenvalues)} '
+                f'{T(m.log_norm())} {TC(yu)}', m.log_pdf(yu), f'{layout}, y {yu.shape}', {'y': yu}, rtol=1e-7)
+            p = _gen_params(rng, 'cacg', pl, D)
+            m = _make_dist('cacg', p)
+            yn = CACG_.normalize_observation(yc)
+            add('cacg.normalize_observation', f'cacgnorm {TC(yc)}', yn, f'y {yc.shape}', {'y': yc})
+            lp, q = m._log_pdf(yn)
+            add('ComplexAngularCentralGaussian._log_pdf', f'cacglogpdf {TC(m.covariance_eigenvectors)} {T(m.covariance_eigenvalues)} {TC(yn)}',
+                [lp, q], f'{layout}, y {yn.shape}', {'y': yn}, rtol=1e-8)
+            # --- cACG trainer: covariance handed to from_covariance, eigenvalue post-processing, start value of fit
+            qf = rng.random((lead + (K,) if layout == 'class-axis' else lead) + (N,)) + 0.1
+            herm = bool(rng.integers(0, 2))
+            floor = float(rng.choice([1e-10, 1e-3, 0.0]))
+            with _Capture(CACG_.ComplexAngularCentralGaussian, 'from_covariance') as capc, \
+                    _Capture(np.linalg, 'eigh') as cape:
+                got = CACG_.ComplexAngularCentralGaussianTrainer()._fit(yn, saliency=sal, quadratic_form=qf, hermitize=herm,
+                                                                        eigenvalue_floor=floor)
+            add('ComplexAngularCentralGaussianTrainer._fit[covariance]', f'cacgcov {int(herm)} {int(sal is not None)} {TC(yn)}' +
+                (f' {T(sal)}' if sal is not None else '') + f' {T(qf)}', capc.seen[0], f'{layout}, y {yn.shape}, hermitize={herm}',
+                {'y': yn}, rtol=1e-8)
+            raw = np.linalg.eigh(cape.seen[0])[0]
+            add('from_covariance[eigenvalue]', f'cacgeig {tu.fbits([floor])} {T(raw)}', got.covariance_eigenvalues,
+                f'eigenvalues {raw.shape}, floor {floor}', {'eigenvalues': raw})
+            if layout != 'class-axis':
+                with _Capture(CACG_.ComplexAngularCentralGaussianTrainer, '_fit', pick=lambda a, k: k['quadratic_form']) as capq:
+                    CACG_.ComplexAngularCentralGaussianTrainer().fit(yc, iterations=1)
+                add('ComplexAngularCentralGaussianTrainer.fit[start]', f'cacgstart {TC(yc)}', capq.seen[0], f'y {yc.shape}')
+            ctx.count(f'corr-directional-{layout}')
+
+
 def corr(ctx):
     rng = ctx.rng
     lines, metas = [], []
@@ -662,93 +908,124 @@ def corr(ctx):
     cap = 20 if ctx.tier == 'quick' else 60
     # (2) shared posterior routine with broadcast weights
     for i in range(ctx.n(40, 600)):
-        lead = tu.lead_shape(rng, max_total=cap)
-        K, N = int(rng.integers(1, 5)), int(rng.integers(1, 7))
-        lp = rng.normal(size=lead + (K, N)) * float(rng.choice([1.0, 30.0, 300.0]))
-        wkind = str(rng.choice(['per-slice', 'global', 'singleton-lead', 'per-observation']))
-        if wkind == 'per-slice':
-            w = rng.random(lead + (K, 1)) + 0.05
-        elif wkind == 'global':
-            w = rng.random((K, 1)) + 0.05
-        elif wkind == 'singleton-lead':
-            w = rng.random(tuple(s if rng.random() < 0.5 else 1 for s in lead) + (K, 1)) + 0.05
-        else:
-            w = rng.random(lead + (K, N)) + 0.05
-        w = w / w.sum(-2, keepdims=True)
-        has_mask = rng.random() < 0.3
-        mask = (rng.random(lead + (K, N)) < 0.7) if has_mask else None
-        eps = float(rng.choice([0.0, 0.0, 1e-10, 1e-3]))
-        want = mmu.log_pdf_to_affiliation(w, lp.copy(), source_activity_mask=mask, affiliation_eps=eps)
-        line = f'affil {int(has_mask)} {int(eps != 0)} {tu.fbits([eps])} {tu.ttok(w)} {tu.ttok(lp)}' + \
-               (f' {tu.ttok(mask.astype(float))}' if has_mask else '')
-        add('log_pdf_to_affiliation', line, want, f'lead {lead}, K={K}, N={N}, weight {wkind} {w.shape}, mask={has_mask}, eps={eps}',
-            {'weight': w, 'log_pdf': lp})
-        ctx.count(f'corr-affil-weight-{wkind}')
+        with _guarded(ctx, 'log_pdf_to_affiliation'):
+            lead = tu.lead_shape(rng, max_total=cap)
+            K, N = int(rng.integers(1, 5)), int(rng.integers(1, 7))
+            lp = rng.normal(size=lead + (K, N)) * float(rng.choice([1.0, 30.0, 300.0]))
+            wkind = str(rng.choice(['per-slice', 'global', 'singleton-lead', 'per-observation']))
+            if wkind == 'per-slice':
+                w = rng.random(lead + (K, 1)) + 0.05
+            elif wkind == 'global':
+                w = rng.random((K, 1)) + 0.05
+            elif wkind == 'singleton-lead':
+                w = rng.random(tuple(s if rng.random() < 0.5 else 1 for s in lead) + (K, 1)) + 0.05
+            else:
+                w = rng.random(lead + (K, N)) + 0.05
+            w = w / w.sum(-2, keepdims=True)
+            has_mask = rng.random() < 0.3
+            mask = (rng.random(lead + (K, N)) < 0.7) if has_mask else None
+            eps = float(rng.choice([0.0, 0.0, 1e-10, 1e-3]))
+            want = mmu.log_pdf_to_affiliation(w, lp.copy(), source_activity_mask=mask, affiliation_eps=eps)
+            line = f'affil {int(has_mask)} {int(eps != 0)} {tu.fbits([eps])} {tu.ttok(w)} {tu.ttok(lp)}' + \
+                   (f' {tu.ttok(mask.astype(float))}' if has_mask else '')
+            add('log_pdf_to_affiliation', line, want, f'lead {lead}, K={K}, N={N}, weight {wkind} {w.shape}, mask={has_mask}, eps={eps}',
+                {'weight': w, 'log_pdf': lp})
+            ctx.count(f'corr-affil-weight-{wkind}')
     # (3) estimate_mixture_weight, weight_constant_axis=(-1,)
     for i in range(ctx.n(30, 400)):
-        lead = tu.lead_shape(rng, max_total=cap)
-        K, N = int(rng.integers(1, 5)), int(rng.integers(1, 7))
-        aff = _gen_init(rng, lead, K, max(N, K))
-        N = aff.shape[-1]
-        has_sal = rng.random() < 0.6
-        sal = _gen_saliency(rng, lead, N) if has_sal else None
-        if has_sal and rng.random() < 0.2:
-            sal[(0,) * len(lead)] = 0.0          # all-zero saliency in one slice: the 'where' branch of _unit_norm
-        want = mmu.estimate_mixture_weight(aff, sal, (-1,))
-        line = f'emw {int(has_sal)} {tu.fbits([1e-10])} {tu.ttok(aff)}' + (f' {tu.ttok(sal)}' if has_sal else '')
-        add('estimate_mixture_weight', line, want, f'lead {lead}, K={K}, N={N}, saliency={has_sal}', {'affiliation': aff})
+        with _guarded(ctx, 'estimate_mixture_weight'):
+            lead = tu.lead_shape(rng, max_total=cap)
+            K, N = int(rng.integers(1, 5)), int(rng.integers(1, 7))
+            aff = _gen_init(rng, lead, K, max(N, K))
+            N = aff.shape[-1]
+            has_sal = rng.random() < 0.6
+            sal = _gen_saliency(rng, lead, N) if has_sal else None
+            if has_sal and rng.random() < 0.2:
+                sal[(0,) * len(lead)] = 0.0          # all-zero saliency in one slice: the 'where' branch of _unit_norm
+            want = mmu.estimate_mixture_weight(aff, sal, (-1,))
+            line = f'emw {int(has_sal)} {tu.fbits([1e-10])} {tu.ttok(aff)}' + (f' {tu.ttok(sal)}' if has_sal else '')
+            add('estimate_mixture_weight', line, want, f'lead {lead}, K={K}, N={N}, saliency={has_sal}', {'affiliation': aff})
     # (4) GaussianTrainer._fit, stand-alone layout and mixture layout (class axis)
     for i in range(ctx.n(45, 600)):
-        lead = tu.lead_shape(rng, max_total=cap)
-        ct = str(rng.choice(['full', 'diagonal', 'spherical']))
-        D = int(rng.integers(1, 4))
-        N = int(rng.integers(D + 2, D + 7))       # the returned model Cholesky-factorises the covariance
-        layout = str(rng.choice(['plain', 'plain-nosal', 'class-axis']))
-        if layout == 'class-axis':
-            K = int(rng.integers(1, 4))
-            y = tu.slice_contents(rng, lead + (1,), (N, D))
-            sal = _gen_init(rng, lead, K, max(N, K))[..., :N] * _gen_saliency(rng, lead, N)[..., None, :]
-        else:
-            y = tu.slice_contents(rng, lead, (N, D))
-            sal = None if layout == 'plain-nosal' else _gen_saliency(rng, lead, N)
-        m = G.GaussianTrainer()._fit(y.copy(), saliency=sal, covariance_type=ct)
-        line = f'gfit {ct} {int(sal is not None)} {tu.ttok(y)}' + (f' {tu.ttok(sal)}' if sal is not None else '')
-        add(f'GaussianTrainer._fit[{ct}]', line, [m.mean, m.covariance], f'{ct}, {layout}, y {y.shape}', {'y': y, 'saliency': sal},
-            rtol=1e-8)
-        ctx.count(f'corr-gfit-{ct}-{layout}')
+        with _guarded(ctx, 'GaussianTrainer._fit'):
+            lead = tu.lead_shape(rng, max_total=cap)
+            ct = str(rng.choice(['full', 'diagonal', 'spherical']))
+            D = int(rng.integers(1, 4))
+            N = int(rng.integers(D + 2, D + 7))       # the returned model Cholesky-factorises the covariance
+            layout = str(rng.choice(['plain', 'plain-nosal', 'class-axis']))
+            if layout == 'class-axis':
+                K = int(rng.integers(1, 4))
+                y = tu.slice_contents(rng, lead + (1,), (N, D))
+                sal = _gen_init(rng, lead, K, max(N, K))[..., :N] * _gen_saliency(rng, lead, N)[..., None, :]
+            else:
+                y = tu.slice_contents(rng, lead, (N, D))
+                sal = None if layout == 'plain-nosal' else _gen_saliency(rng, lead, N)
+            m = G.GaussianTrainer()._fit(y.copy(), saliency=sal, covariance_type=ct)
+            line = f'gfit {ct} {int(sal is not None)} {tu.ttok(y)}' + (f' {tu.ttok(sal)}' if sal is not None else '')
+            add(f'GaussianTrainer._fit[{ct}]', line, [m.mean, m.covariance], f'{ct}, {layout}, y {y.shape}', {'y': y, 'saliency': sal},
+                rtol=1e-8)
+            ctx.count(f'corr-gfit-{ct}-{layout}')
     # (5) the three log_pdf
     for i in range(ctx.n(45, 600)):
-        lead = tu.lead_shape(rng, max_total=cap)
-        ct = str(rng.choice(['full', 'diagonal', 'spherical']))
-        kind = 'gauss-' + ct
-        D, N = int(rng.integers(1, 4)), int(rng.integers(1, 6))
-        layout = str(rng.choice(['plain', 'class-axis']))
-        if layout == 'plain':
-            p = _gen_params(rng, kind, lead, D)
-            y = tu.slice_contents(rng, lead, (N, D))
-        else:
-            K = int(rng.integers(1, 4))
-            p = _gen_params(rng, kind, lead + (K,), D)
-            y = tu.slice_contents(rng, lead + (1,), (N, D))
-        m = _make_dist(kind, p)
-        want = m.log_pdf(y)
-        line = (f'glogpdf {ct} {tu.fbits([LOG2PI])} {tu.ttok(m.mean)} {tu.ttok(m.precision_cholesky)} '
-                f'{tu.ttok(m.log_det_precision_cholesky)} {tu.ttok(y)}')
-        add(f'{type(m).__name__}.log_pdf', line, want, f'{layout}, mean {m.mean.shape}, y {y.shape}', {'y': y, **p}, rtol=1e-8)
-        ctx.count(f'corr-logpdf-{ct}-{layout}')
+        with _guarded(ctx, 'Gaussian log_pdf'):
+            lead = tu.lead_shape(rng, max_total=cap)
+            ct = str(rng.choice(['full', 'diagonal', 'spherical']))
+            kind = 'gauss-' + ct
+            D, N = int(rng.integers(1, 4)), int(rng.integers(1, 6))
+            layout = str(rng.choice(['plain', 'class-axis']))
+            if layout == 'plain':
+                p = _gen_params(rng, kind, lead, D)
+                y = tu.slice_contents(rng, lead, (N, D))
+            else:
+                K = int(rng.integers(1, 4))
+                p = _gen_params(rng, kind, lead + (K,), D)
+                y = tu.slice_contents(rng, lead + (1,), (N, D))
+            m = _make_dist(kind, p)
+            want = m.log_pdf(y)
+            line = (f'glogpdf {ct} {tu.fbits([LOG2PI])} {tu.ttok(m.mean)} {tu.ttok(m.precision_cholesky)} '
+                    f'{tu.ttok(m.log_det_precision_cholesky)} {tu.ttok(y)}')
+            add(f'{type(m).__name__}.log_pdf', line, want, f'{layout}, mean {m.mean.shape}, y {y.shape}', {'y': y, **p}, rtol=1e-8)
+            ctx.count(f'corr-logpdf-{ct}-{layout}')
     # (6) __post_init__ reshapes
     for i in range(ctx.n(30, 400)):
-        lead = tu.lead_shape(rng, max_total=cap)
-        if rng.random() < 0.3:
-            lead = ()
-        ct = str(rng.choice(['full', 'diagonal', 'spherical']))
-        kind = 'gauss-' + ct
-        D = int(rng.integers(1, 4))
-        p = _gen_params(rng, kind, lead, D)
-        m = _make_dist(kind, p)
-        line = f'postinit {ct} {D} {tu.ttok(p["covariance"])}'
-        add(f'{type(m).__name__}.__post_init__', line, [m.precision_cholesky, m.log_det_precision_cholesky],
-            f'covariance {np.shape(p["covariance"])}', p, rtol=1e-8)
+        with _guarded(ctx, 'Gaussian __post_init__'):
+            lead = tu.lead_shape(rng, max_total=cap)
+            if rng.random() < 0.3:
+                lead = ()
+            ct = str(rng.choice(['full', 'diagonal', 'spherical']))
+            kind = 'gauss-' + ct
+            D = int(rng.integers(1, 4))
+            p = _gen_params(rng, kind, lead, D)
+            m = _make_dist(kind, p)
+            line = f'postinit {ct} {D} {tu.ttok(p["covariance"])}'
+            add(f'{type(m).__name__}.__post_init__', line, [m.precision_cholesky, m.log_det_precision_cholesky],
+                f'covariance {np.shape(p["covariance"])}', p, rtol=1e-8)
+    _corr_directional(ctx, rng, add, cap)
+    # (7) the EM loop of the GMM trainer (gmmFit): n + 1 iterations, state stored per step; the recursive definition itself
+    #     for n <= 1; the driver also reports whether the hypothesis GoodLead of gmmFit_slices held on the executed shapes
+    for i in range(ctx.n(24, 240)):
+        with _guarded(ctx, 'GMMTrainer.fit'):
+            lead = tu.lead_shape(rng, max_total=8 if ctx.tier == 'quick' else 20)
+            ct = str(rng.choice(['full', 'diagonal', 'spherical']))
+            D, K = int(rng.integers(1, 4)), int(rng.integers(1, 4))
+            N = int(rng.integers(K * (D + 2), K * (D + 2) + 5))
+            n = int(rng.integers(0, 3))
+            direct = n <= 1 and rng.random() < 0.35 and int(np.prod(lead)) * K * N * D <= 150
+            y = tu.slice_contents(rng, lead, (N, D))
+            init = _gen_init(rng, lead, K, N)
+            sal = np.ones(lead + (N,)) if rng.random() < 0.5 else _gen_saliency(rng, lead, N)
+            m = GMM_.GMMTrainer().fit(y.copy(), initialization=init.copy(), iterations=n + 1, saliency=sal,
+                                      covariance_type={'full': 'full', 'diagonal': 'diagonal', 'spherical': 'spherical'}[ct])
+            g = m.gaussian
+            fields = [m.weight, g.mean, g.covariance, g.precision_cholesky, g.log_det_precision_cholesky]
+            args = f'{ct} {n} {tu.fbits([1e-10, LOG2PI])} {tu.ttok(y)} {tu.ttok(init)} {tu.ttok(sal)}'
+            tol = 1e-8 * 10.0 ** n * max(1.0, float(np.max(np.linalg.cond(g.covariance))) if ct == 'full' else 1.0)
+            add(f'GMMTrainer.fit[{ct}]', 'gmmfit ' + args, fields + [m.predict(y), np.array(1.0)],
+                f'{n + 1} iterations, y {y.shape}, K={K}', {'y': y, 'initialization': init, 'saliency': sal}, rtol=min(tol, 1e-4))
+            if direct:
+                add(f'gmmFit-recursive[{ct}]', 'gmmfit-direct ' + args, fields, f'{n + 1} iterations, y {y.shape}, K={K}',
+                    {'y': y, 'initialization': init, 'saliency': sal}, rtol=min(tol, 1e-4))
+            ctx.count(f'corr-gmmfit-{ct}-it{n + 1}')
     out = run_driver(lines, exe='driver_tensor')
     for (op, want, detail, data, rtol), o in zip(metas, out):
         _cmp_tensor(ctx, op, o, want, detail, data, rtol=rtol)
